@@ -43,8 +43,9 @@ def main():
     src = f"/tmp/mut-{pid}/out"
     dst = os.path.join(ROOT, "seeded", name)
     os.makedirs(dst, exist_ok=True)
-    for f in ("patch.diff", "demo_test.py", "meta.json"):
-        shutil.copy(os.path.join(src, f), os.path.join(dst, f))
+    if os.path.isdir(src):
+        for f in ("patch.diff", "demo_test.py", "meta.json"):
+            shutil.copy(os.path.join(src, f), os.path.join(dst, f))
     meta = json.load(open(os.path.join(dst, "meta.json")))
     sh(f"git -C /repo worktree remove --force {WT}")
     r = sh(f"git -C /repo worktree add --detach {WT} HEAD")
